@@ -430,6 +430,10 @@ func (v *Val) Variant(k int) *Val {
 		for i, kv := range v.M {
 			c.M[i] = KV{kv.K, kv.V.Variant(k)}
 		}
+		if k != 0 && len(v.M) >= 16 && v.T == "map" {
+			// big maps also change their KEY SET between variants while keeping their size
+			c.M[len(c.M)-1].K = fmt.Sprintf("%s_v%d", c.M[len(c.M)-1].K, k)
+		}
 	}
 	return &c
 }
